@@ -725,7 +725,7 @@ class FunctionExtension(FilterExpression):
         except KeyError:
             return UNDEFINED  # TODO: should probably raise an exception
         args = [arg.evaluate(context) for arg in self.args]
-        return func(*self._unpack_node_lists(func, args))
+        return self._call(func, args)
 
     async def evaluate_async(self, context: FilterContext) -> object:
         try:
@@ -733,7 +733,16 @@ class FunctionExtension(FilterExpression):
         except KeyError:
             return UNDEFINED  # TODO: should probably raise an exception
         args = [await arg.evaluate_async(context) for arg in self.args]
-        return func(*self._unpack_node_lists(func, args))
+        return self._call(func, args)
+
+    def _call(self, func: Callable[..., Any], args: List[object]) -> object:
+        try:
+            return func(*self._unpack_node_lists(func, args))
+        except (TypeError, AttributeError) as err:
+            # Without well-typedness checks, a function can be given arguments
+            # of the wrong type or number. For example `count(1)`, or
+            # `value('a')`, which gets a string instead of a node list.
+            raise JSONPathTypeError(f"{self.name}(): {err}") from err
 
     def _unpack_node_lists(
         self, func: Callable[..., Any], args: List[object]
